@@ -1051,4 +1051,248 @@ theorem load_layouts (rate : Rat) :
   refine ⟨fun _ => rfl, ?_, fun _ _ => rfl, fun _ => rfl⟩
   intro t s; cases s <;> rfl
 
+
+/-! ### the id tables (uint16) -/
+
+/-- every name the conversion can put into an output directory that was empty (before labelling) -/
+def computedNames : List Name :=
+  [["clusters", "channels", "npy"], ["clusters", "peakToTrough", "npy"], ["clusters", "amps", "npy"],
+   ["clusters", "uuids", "csv"], ["channels", "rawInd", "npy"], ["spikes", "times", "npy"],
+   ["spikes", "samples", "npy"], ["spikes", "amps", "npy"], ["templates", "amps", "npy"],
+   ["templates", "waveforms", "npy"], ["templates", "waveformsChannels", "npy"],
+   ["clusters", "waveforms", "npy"], ["clusters", "waveformsChannels", "npy"],
+   ["spikes", "depths", "npy"], ["clusters", "depths", "npy"]]
+
+/-- every name the conversion can put into an output directory that was empty (before labelling) -/
+def allNames : List Name := computedNames ++ fileRenames.map (·.2.1)
+
+theorem keysIn_mono {S S' : List Name} {d : FDir} (h : ∀ x ∈ d, x.1 ∈ S) (hs : ∀ n ∈ S, n ∈ S') : ∀ x ∈ d, x.1 ∈ S' :=
+  fun x hx => hs _ (h x hx)
+
+def KeysIn (S : List Name) (d : FDir) : Prop := ∀ x ∈ d, x.1 ∈ S
+
+theorem keysIn_write {S : List Name} {d : FDir} (n : Name) (e : Entry) (h : KeysIn S d) (hn : n ∈ S) :
+    KeysIn S (d.write n e) := by
+  intro x hx
+  rcases mem_write.mp hx with ⟨h1, _⟩ | h1
+  · exact h x h1
+  · subst h1; exact hn
+
+theorem keysIn_out3 (v : View) (gen : Nat → String) (src : FDir) :
+    KeysIn computedNames (out3 v gen ⟨src, []⟩) := by
+  have h0 : KeysIn computedNames [] := fun x hx => by cases hx
+  unfold out3 makeTemplateAndSpikesObjects makeChannelObjects makeClusterObjects
+  simp only []
+  repeat (first | apply keysIn_write _ _ _ (by decide) | exact h0 | split)
+
+theorem keysIn_makeDepths (v : View) (out out' : FDir) (h : KeysIn computedNames out)
+    (hd : makeDepths v out = some out') : KeysIn computedNames out' := by
+  unfold makeDepths at hd
+  cases hc : out.lookup ["clusters", "channels", "npy"] with
+  | none => simp [hc] at hd
+  | some cc =>
+    simp only [hc, Option.some.injEq] at hd
+    subst hd
+    exact keysIn_write _ _ (keysIn_write _ _ h (by decide)) (by decide)
+
+theorem keysIn_copyOne (force : Bool) (src out : FDir) (r : Name × Name × Bool) (hr : r ∈ fileRenames)
+    (h : KeysIn allNames out) : KeysIn allNames (copyOne force src out r) := by
+  have hn : r.2.1 ∈ allNames := by
+    unfold allNames
+    exact List.mem_append_right _ (List.mem_map.mpr ⟨r, hr, rfl⟩)
+  unfold copyOne
+  cases src.lookup r.1 with
+  | none => exact h
+  | some e =>
+    simp only []
+    have h1 : KeysIn allNames (if (out.has r.2.1 && !force) = true then out else out.write r.2.1 e) := by
+      split
+      · exact h
+      · exact keysIn_write _ _ h hn
+    split
+    · exact keysIn_write _ _ h1 hn
+    · exact h1
+
+theorem keysIn_foldl_copy (force : Bool) (src : FDir) :
+    ∀ (l : List (Name × Name × Bool)) (out : FDir), (∀ r ∈ l, r ∈ fileRenames) → KeysIn allNames out →
+      KeysIn allNames (l.foldl (copyOne force src) out) := by
+  intro l
+  induction l with
+  | nil => intro out _ h; exact h
+  | cons r l ih =>
+    intro out hl h
+    rw [List.foldl_cons]
+    exact ih _ (fun r' hr' => hl r' (List.mem_cons_of_mem _ hr')) (keysIn_copyOne force src out r (hl r List.mem_cons_self) h)
+
+theorem labelled_head (label a : String) (rest : List String) :
+    ∃ rest', labelled' label (a :: rest) = a :: rest' := by
+  unfold labelled'
+  split
+  · exact ⟨rest, rfl⟩
+  · cases h : isObj (a :: rest)
+    · rw [relabel_of_not_obj _ _ h]; exact ⟨rest, rfl⟩
+    · obtain ⟨a', b, r, hab⟩ := isObj_cons2 h
+      simp only [List.cons.injEq] at hab
+      obtain ⟨rfl, rfl⟩ := hab
+      obtain ⟨mid, hm, _⟩ := withLabel_cons2 label a b r
+      exact ⟨mid, by simp [relabel, h, hm]⟩
+
+theorem not_matches_head (attr label a : String) (rest : List String) (ha : a ≠ "spikes") :
+    matchesSpikes attr (labelled' label (a :: rest)) = false := by
+  obtain ⟨rest', h⟩ := labelled_head label a rest
+  rw [h]
+  unfold matchesSpikes
+  split
+  · rename_i heq; simp only [List.cons.injEq] at heq; exact absurd heq.1 ha
+  · rfl
+
+theorem only_match (attr : String) (hattr : attr = "clusters" ∨ attr = "templates") (label : String) :
+    ∀ k ∈ allNames, matchesSpikes attr (labelled' label k) = true → k = ["spikes", attr, "npy"] := by
+  intro k hk
+  simp only [allNames, computedNames, fileRenames, List.map_cons, List.map_nil, List.cons_append, List.nil_append,
+    List.mem_cons, List.not_mem_nil, or_false] at hk
+  rcases hattr with rfl | rfl <;>
+  rcases hk with h | h | h | h | h | h | h | h | h | h | h | h | h | h | h | h | h | h | h | h | h | h | h | h | h | h | h | h | h | h | h <;>
+    subst h <;> intro hm <;>
+    first
+    | rfl
+    | (rw [not_matches_head _ _ _ _ (by decide)] at hm; cases hm)
+    | (rw [not_matches_of_second _ _ _ _ _ (by decide) (by decide)] at hm; cases hm)
+
+theorem lookup_mapFirst_unique (p : Name → Bool) (g : Entry → Entry) (k0 : Name) (hk0 : p k0 = true) :
+    ∀ (d d' : FDir), (∀ x ∈ d, p x.1 = true → x.1 = k0) → mapFirst p g d = some d' →
+      d'.lookup k0 = (d.lookup k0).map g := by
+  intro d
+  induction d with
+  | nil => intro d' _ h; simp [mapFirst] at h
+  | cons y rest ih =>
+    intro d' hu h
+    unfold mapFirst at h
+    split at h
+    · rename_i hp
+      simp only [Option.some.injEq] at h
+      subst h
+      have hy : y.1 = k0 := hu y List.mem_cons_self hp
+      simp [FDir.lookup, hy]
+    · rename_i hp
+      cases hr : mapFirst p g rest with
+      | none => simp [hr] at h
+      | some r =>
+        simp only [hr, Option.map_some, Option.some.injEq] at h
+        subst h
+        have hyk : (y.1 == k0) = false := by
+          simp only [beq_eq_false_iff_ne, ne_eq]; intro hyk; rw [hyk] at hp; exact hp hk0
+        have := ih r (fun x hx => hu x (List.mem_cons_of_mem _ hx)) hr
+        simp only [FDir.lookup, List.find?_cons, hyk] at this ⊢
+        exact this
+
+theorem u16_rows_id (rows : List Row) (h : ∀ r ∈ rows, ∃ z, r = Row.z z ∧ 0 ≤ z ∧ z < 65536) :
+    rows.map wrap16 = rows := by
+  induction rows with
+  | nil => rfl
+  | cons r rows ih =>
+    obtain ⟨z, rfl, h0, h1⟩ := h r List.mem_cons_self
+    rw [List.map_cons, ih (fun r' hr' => h r' (List.mem_cons_of_mem _ hr'))]
+    simp only [wrap16, List.cons.injEq, Row.z.injEq, and_true]
+    omega
+
+/-- the copy of one source file into an output directory that does not hold its target yet -/
+theorem lookup_copy_target (force : Bool) (src out : FDir) (pre post : List (Name × Name × Bool))
+    (r : Name × Name × Bool) (hsplit : fileRenames = pre ++ r :: post)
+    (hpre : ∀ r' ∈ pre, r.2.1 ≠ r'.2.1) (hpost : ∀ r' ∈ post, r.2.1 ≠ r'.2.1)
+    (hno : out.has r.2.1 = false) (e : Entry) (he : src.lookup r.1 = some e) :
+    ∃ e', (copyFiles force src out).lookup r.2.1 = some e' ∧ e'.rows = e.rows := by
+  unfold copyFiles
+  rw [hsplit, List.foldl_append, List.foldl_cons, lookup_foldl_copy_ne _ _ _ post _ hpost]
+  have hno' : (List.foldl (copyOne force src) out pre).has r.2.1 = false := by
+    rw [← lookup_isSome, lookup_foldl_copy_ne _ _ _ pre _ hpre, lookup_isSome]; exact hno
+  generalize List.foldl (copyOne force src) out pre = o1 at hno'
+  unfold copyOne
+  simp only [he, hno', Bool.false_and, Bool.false_eq_true, ↓reduceIte]
+  split
+  · exact ⟨_, lookup_write_self _ _ _, rfl⟩
+  · exact ⟨_, lookup_write_self _ _ _, rfl⟩
+
+theorem has_out4_empty (v : View) (gen : Nat → String) (src out4 : FDir)
+    (h4 : makeDepths v (out3 v gen ⟨src, []⟩) = some out4) (k : Name) (hk : k ∉ computedNames) :
+    out4.has k = false := by
+  cases hh : out4.has k
+  · rfl
+  · obtain ⟨e, he⟩ := has_eq_true.mp hh
+    exact absurd (keysIn_makeDepths v _ out4 (keysIn_out3 v gen src) h4 _ he) hk
+
+theorem keysIn_rename (label : String) (d : FDir) (h : KeysIn allNames d) :
+    ∀ x ∈ renameWithLabel label d, ∃ k ∈ allNames, x.1 = labelled' label k := by
+  intro x hx
+  unfold renameWithLabel at hx
+  unfold labelled'
+  split at hx
+  · rename_i hl; exact ⟨x.1, h x hx, by simp [hl]⟩
+  · rename_i hl
+    obtain ⟨x0, hx0, rfl⟩ := List.mem_map.mp hx
+    exact ⟨x0.1, h x0 hx0, by simp [hl]⟩
+
+/-- the exported id tables: for a conversion into an EMPTY output directory, the `spikes.clusters` /
+`spikes.templates` file holds the rows of the source file when every id is below 65536 -/
+theorem export_ids (cfg : Cfg) (v : View) (gen : Nat → String) (src : FDir) (h : Convertible cfg ⟨src, []⟩)
+    (attr : String) (srcName : Name)
+    (hattr : (attr = "clusters" ∧ srcName = ["spike_clusters", "npy"]) ∨
+             (attr = "templates" ∧ srcName = ["spike_templates", "npy"]))
+    (e : Entry) (he : src.lookup srcName = some e)
+    (hrows : ∀ r ∈ e.rows, ∃ z, r = Row.z z ∧ 0 ≤ z ∧ z < 65536) :
+    ∃ e', (convertFS cfg v gen ⟨src, []⟩).fs.out.lookup (labelled' cfg.label ["spikes", attr, "npy"]) = some e' ∧
+      e'.rows = e.rows := by
+  obtain ⟨out4, o, h4, hcomp, _, hres⟩ := convertFS_ok cfg v gen ⟨src, []⟩ h
+  rw [hres]
+  simp only []
+  -- keys of the directory the globs run on
+  have hk4 : KeysIn allNames out4 :=
+    keysIn_mono (keysIn_makeDepths v _ out4 (keysIn_out3 v gen src) h4) (fun n hn => List.mem_append_left _ hn)
+  have hk5 := keysIn_rename cfg.label _
+    (keysIn_foldl_copy cfg.force (src' cfg ⟨src, []⟩) fileRenames out4 (fun _ hr => hr) hk4)
+  have hU : ∀ (a : String), (a = "clusters" ∨ a = "templates") →
+      ∀ x ∈ renameWithLabel cfg.label (copyFiles cfg.force (src' cfg ⟨src, []⟩) out4),
+        matchesSpikes a x.1 = true → x.1 = labelled' cfg.label ["spikes", a, "npy"] := by
+    intro a ha x hx hm
+    obtain ⟨k, hk, hxk⟩ := hk5 x hx
+    rw [hxk] at hm ⊢
+    rw [only_match a ha cfg.label k hk hm]
+  -- the copied file before the globs
+  have hsrc : (src' cfg ⟨src, []⟩).lookup srcName = some e := by
+    rw [lookup_src' cfg ⟨src, []⟩ srcName (by rcases hattr with ⟨_, rfl⟩ | ⟨_, rfl⟩ <;> decide)
+      (by rcases hattr with ⟨_, rfl⟩ | ⟨_, rfl⟩ <;> decide)]
+    exact he
+  have hcopy : ∃ e1, (renameWithLabel cfg.label (copyFiles cfg.force (src' cfg ⟨src, []⟩) out4)).lookup
+      (labelled' cfg.label ["spikes", attr, "npy"]) = some e1 ∧ e1.rows = e.rows := by
+    rw [lookup_rename]
+    rcases hattr with ⟨rfl, rfl⟩ | ⟨rfl, rfl⟩
+    · exact lookup_copy_target cfg.force _ out4 (fileRenames.take 2) (fileRenames.drop 3)
+        (["spike_clusters", "npy"], ["spikes", "clusters", "npy"], true) rfl (by decide) (by decide)
+        (has_out4_empty v gen src out4 h4 _ (by decide)) e hsrc
+    · exact lookup_copy_target cfg.force _ out4 (fileRenames.take 3) (fileRenames.drop 4)
+        (["spike_templates", "npy"], ["spikes", "templates", "npy"], true) rfl (by decide) (by decide)
+        (has_out4_empty v gen src out4 h4 _ (by decide)) e hsrc
+  obtain ⟨e1, he1, he1rows⟩ := hcopy
+  have hr1 : (u16 e1).rows = e.rows := by
+    simp only [u16, he1rows]; exact u16_rows_id _ hrows
+  -- the two globs
+  unfold compressSpikesDtypes at hcomp
+  cases hd1 : mapFirst (matchesSpikes "templates") u16
+      (renameWithLabel cfg.label (copyFiles cfg.force (src' cfg ⟨src, []⟩) out4)) with
+  | none => simp [hd1] at hcomp
+  | some d1 =>
+    simp only [hd1, Option.bind_some] at hcomp
+    have hU1 : ∀ x ∈ d1, matchesSpikes "clusters" x.1 = true → x.1 = labelled' cfg.label ["spikes", "clusters", "npy"] := by
+      intro x hx hm
+      obtain ⟨x0, hx0, h1, _⟩ := mapFirst_mem _ _ _ _ hd1 x hx
+      rw [h1] at hm ⊢
+      exact hU "clusters" (Or.inl rfl) x0 hx0 hm
+    rcases hattr with ⟨rfl, _⟩ | ⟨rfl, _⟩
+    · rw [lookup_mapFirst_unique _ u16 _ (matches_clusters cfg.label) _ _ hU1 hcomp,
+        lookup_mapFirst_ne _ _ _ (not_matches_of_second _ _ _ _ _ (by decide) (by decide)) _ _ hd1, he1]
+      exact ⟨u16 e1, rfl, hr1⟩
+    · rw [lookup_mapFirst_ne _ _ _ (not_matches_of_second _ _ _ _ _ (by decide) (by decide)) _ _ hcomp,
+        lookup_mapFirst_unique _ u16 _ (matches_templates cfg.label) _ _ (hU "templates" (Or.inr rfl)) hd1, he1]
+      exact ⟨u16 e1, rfl, hr1⟩
+
 end PhyVerif.C13.Lemmas
